@@ -243,6 +243,25 @@ theorem C16_export_events :
       | exact ⟨3, _, by decide, rfl, fun f => rfl⟩
       | exact ⟨4, _, by decide, rfl, fun f => rfl⟩
 
+/-- **Export names through `Reorder` / `Remove` records**: `output` carries the deme names along with the axes.  After
+    `reorder_pops(phi, neworder)` axis i of the result is axis `neworder[i]-1` of the input (`applyOrder`, C06_reorder), and the
+    names `output` attaches are exactly `younger[i] = older[neworder[i]-1]` — the permutation itself, not its inverse; after
+    `remove_pop(phi, xx, k)` the names are the old ones without entry k-1. -/
+theorem C16_export_reorder (older neworder : List ℕ) :
+    reorderNames older neworder = applyOrder older neworder
+    ∧ (reorderNames older neworder).length = neworder.length
+    ∧ (∀ i (hi : i < neworder.length), (reorderNames older neworder).getD i 0 = older.getD (neworder[i] - 1) 0)
+    ∧ ∀ k, removeNames older k = older.eraseIdx (k - 1) := by
+  have h : reorderNames older neworder = applyOrder older neworder := by
+    unfold reorderNames applyOrder; rfl
+  refine ⟨h, by rw [h]; simp [applyOrder], ?_, fun k => rfl⟩
+  intro i hi
+  rw [h]
+  simp [applyOrder, List.getD_eq_getElem?_getD, List.getElem?_map, List.getElem?_eq_getElem hi]
+
+/-- a permutation that is not its own inverse separates the two directions -/
+example : reorderNames [10, 20, 30] [2, 3, 1] = [20, 30, 10] := by decide
+
 /-- weaker form: whatever pulse record a pulse function logs names the right sources and proportions
     (presence and destination not claimed) -/
 theorem C16_export_events_partial :
